@@ -721,6 +721,7 @@ func runC11(c *Check) {
 		c.Ob("R11.7", "reset clears parser."+f.Name(), cleared, p.Pos(reset.Pos()), "reset stores the zero value into every per-blob state field (state of one blob must not shape the next one)")
 	}
 	c.Floor("R11.7", "state fields of parser", nState, 3)
+	c11ProofList(c, "R11.8")
 }
 
 func isShareSlice(t types.Type) bool {
